@@ -34,7 +34,7 @@ def job(args):
 
 
 def main():
-    ids = sys.argv[1:] or sorted(os.listdir(os.path.join(VERIF, "seeded")))
+    ids = sys.argv[1:] or sorted(x for x in os.listdir(os.path.join(VERIF, "seeded")) if os.path.isdir(os.path.join(VERIF, "seeded", x)))
     work = []
     bad_patch = {}
     for sid in ids:
